@@ -18,5 +18,6 @@ PROP = {'counts': {'quick': 150, 'thorough': 5000},
                  'retention are inputs/abstracted',
                  'log retirement = wal.ManageRetention (MaxFileCount) on the engine\'s WAL before the close, removing exactly the '
                  'log files recorded right after a full flush (all of whose entries are in SSTables)'],
- 'partial': "the tracker's wall-clock retention is not modelled (every tracked key counts as recent); "
+ 'partial': "C12_reopen is proved for log retirement right after a FULL flush (retirement at other points: known finding KF-C12-7) and for runs without recovery-budget overflow (D11); " 
+            "the tracker's wall-clock retention is not modelled (every tracked key counts as recent); "
             "level < 10 and file numbers < 10^6 (name order = numeric order)"}
